@@ -171,6 +171,35 @@ def _impulse_structure(ctx, bh, l, r, p, Nd, method, pairs):
             return
 
 
+def _large_case(ctx, bh, cs, l, ref, p, Nd, off):
+    """one case of the large-size stream (regenerated from its own seed `cs` by --replay)"""
+    Y = np.random.default_rng(cs).standard_normal((l, Nd)) + off
+    Yref = Y[ref, :]
+    r = len(ref)
+    N = Nd - 2 * p - 1
+    for method in ("cov_mm", "cov_R"):
+        H, _ = bh(Y, Yref, p, method)
+        if method == "cov_mm":
+            Yf = np.vstack([Y[:, p + 2 + i : N + p + 1 + i] for i in range(p + 1)])
+            Yp = np.vstack([Yref[:, p + 1 - j : N + p - j] for j in range(p + 1)])
+            E = Yf @ Yp.T / N
+        else:
+            Rk = [Y[:, : Nd - q] @ Yref[:, q:].T / (Nd - q) for q in range(2 * p + 1)]
+            E = np.block([[Rk[p + i - j] for j in range(p + 1)] for i in range(p + 1)])
+        ctx.oracle_cases += 1
+        ctx.count("oracle_large_sizes")
+        ctx.nontrivial.add(("oracle-large", method, l, r, p, Nd))
+        err = max_rel_err(H, E) if H.shape == E.shape else float("inf")
+        key = f"margin_large_{method}"
+        ctx.dist[key] = max(ctx.dist.get(key, 0.0), float(err) / 1e-9 if err == err else float("inf"))
+        if err > 1e-9:
+            ctx.violation(
+                f"entry-{method}",
+                f"{method}: matrix differs from the definition (rel err {err:.2e}) at br={p}, {l} channels, references {ref}, {Nd} samples",
+                {"large_case": {"cs": cs, "l": l, "ref": ref, "p": p, "Ndat": Nd, "off": off}, "method": method},
+            )
+
+
 def oracle(ctx, scale):
     bh = _bh()
     rng = ctx.rng
@@ -218,6 +247,22 @@ def oracle(ctx, scale):
                                   {"Y": Y.tolist(), "Yref": Yref.tolist(), "p": p})
             else:
                 ctx.skipped += 1
+    # (1a) sizes as met in practice (the small cases above stop at br = 5 and 60 samples): many block rows, records of
+    # some hundreds to some ten thousands of samples with lengths of every parity/factorisation - an implementation may
+    # take another route above some size (an FFT for many lags, blocked products for long records); the matrix is defined
+    # for every size, so the independent construction is vectorised here (one product per lag / per block pair)
+    for k in range(ctx.n(30, 300) * scale):
+        cs = rng.getrandbits(32)
+        l = rng.randint(1, 4)
+        r = rng.randint(1, l)
+        ref = rng.sample(range(l), r)
+        p = rng.choice([6, 8, 9, 12, 16, 20, 24, 31]) if k % 2 == 0 else rng.randint(6, 32)
+        if k % 10 == 9:
+            Nd = rng.choice([4096, 8191, 10007, 16385, 30000, 32768 + 2 * p])
+        else:
+            Nd = rng.randint(4 * p + 8, 4 * p + 400)
+        off = rng.choice([0.0, 0.0, 3.0])
+        _large_case(ctx, bh, cs, l, ref, p, Nd, off)
     # (1b) through the classes: the Hankel matrix stored by SSIcov/SSIdat for a reference list in ANY order has one
     # block column per listed reference, in the listed order
     from pyoma2.algorithms import SSIcov, SSIdat
@@ -308,6 +353,21 @@ def replay(rec):
     v = rec["violation"]
     inp = v["input"]
     print("replaying", v["sig"], "-", v["what"])
+    if "large_case" in inp:
+        class C0:
+            oracle_cases = 0
+            dist = {}
+            nontrivial = set()
+
+            def count(self, *a):
+                pass
+
+            def violation(self, *a, **k):
+                print("VIOLATION reproduced:", a[1])
+
+        c = inp["large_case"]
+        _large_case(C0(), bh, c["cs"], c["l"], c["ref"], c["p"], c["Ndat"], c["off"])
+        return 0
     if "Y" in inp:
         dt = np.dtype(inp.get("dtype", "float64"))
         Y = np.array(inp["Y"], float)
